@@ -136,6 +136,13 @@ class Models:
         if name in ('omp_get_max_threads', 'omp_get_num_threads'): return z3.IntVal(1)
         if name == 'now':
             return Opaque('time_point')
+        if name == 'remove_if':
+            b = A(0); en = A(1); pred = e.rv(args[2], st, fr)
+            if not (isinstance(b, Iter) and isinstance(pred, Closure)): raise Unsupported('remove_if form')
+            self.used('std::remove_if + vector::erase: the result is the stable sub-sequence of the elements for which the predicate returned false (C++17 [alg.remove], [vector.modifiers])')
+            return Rec('remove_if', {'begin': b, 'end': en, 'pred': pred})
+        if name in ('exp',):
+            pass
         h = getattr(self, 'fn_' + name, None)
         if h is not None: return h(st, rd, args, n, fr)
         raise Unsupported('no model for function %s at %s' % (name, e.where(n, fr)))
@@ -455,7 +462,9 @@ class Models:
             return e.arith(name[len('operator'):], a, b, TY.of_node(n), st, n, fr)
         if name in ('operator*', 'operator->') and len(args) == 1:
             p = e.rv(args[0], st, fr)
-            if name == 'operator->' and isinstance(p, Ptr): return p
+            if name == 'operator->' and isinstance(p, Ptr):
+                if p.cls is None and a0t.kind == 'ptr' and a0t.args: p = Ptr(p.ref, e.ptr_cls(a0t))
+                return p
             return e.deref(st, p, {'kind': 'UnaryOperator', 'inner': [args[0]], '_file': n.get('_file'), '_line': n.get('_line')}, fr)
         if name in ('operator++', 'operator--'):
             lv = e.lv(args[0], st, fr)
@@ -571,6 +580,30 @@ class Models:
         ln = e.vec_len(st, obj.ref)
         self.bounds(st, obj.ref, ln - 1, n, fr, 'non-empty')
         e.hwrite(st, 'vec.len', obj.ref, ln - 1)
+
+    def m_vector_erase(self, st, obj, bt, args, n, fr):
+        e = self.e
+        a0 = e.rv(args[0], st, fr)
+        if isinstance(a0, Rec) and a0.t == 'remove_if' and len(args) == 2:
+            last = e.rv(args[1], st, fr)
+            b, en, pred = a0.f['begin'], a0.f['end'], a0.f['pred']
+            ln = e.vec_len(st, obj.ref)
+            full = z3.And(b.vref == obj.ref, en.vref == obj.ref, b.idx == 0, en.idx == ln, last.idx == ln, last.vref == obj.ref)
+            cnt = st.ghost.get('removal_count', z3.IntVal(0))
+            st.ghost['removal_count'] = cnt + 1
+            st.ghost['removal_full_range'] = z3.And(st.ghost.get('removal_full_range', z3.BoolVal(True)), full)
+            st.ghost['removal_pred_line'] = pred.node.get('_line')
+            st.ghost['removal_vec'] = obj.ref
+            # the predicate may have side effects on the elements' pointees: everything reachable becomes unknown
+            e.havoc_all(st)
+            n2 = e.fresh('len_after_removal', I)
+            st.pc.append(z3.And(n2 >= 0, n2 <= ln))
+            e.hwrite(st, 'vec.len', obj.ref, n2)
+            st.ghost['removal_len_after'] = n2
+            st.ghost['removal_data_after'] = z3.Select(e.harr(st, e.vec_data_key(obj.ty.args[0]), None), obj.ref) if obj.ty.args[0].is_scalar() else None
+            self.bump_epoch(st, obj.ref)
+            return Iter(obj.ref, n2, obj.ty)
+        raise Unsupported('vector::erase form at %s' % e.where(n, fr))
 
     def m_vector_begin(self, st, obj, bt, args, n, fr): return Iter(obj.ref, z3.IntVal(0), obj.ty)
     def m_vector_end(self, st, obj, bt, args, n, fr): return Iter(obj.ref, self.e.vec_len(st, obj.ref), obj.ty)
